@@ -1000,6 +1000,14 @@ static void unit_boundary(int part) {
 				case_applymap<uint16_t, int>(t.v, t.json, map16, "[2,1,0,65535]", del != 0);
 			}
 		}
+		// more than 65535 SURVIVORS (FO4 shapes count triangles in 32 bits): every triangle but one per cycle survives
+		for (ll cnt : {65536ll, 65537ll, 70000ll}) {
+			TriLst t = TLcycle({Triangle(0, 1, 2), Triangle(2, 1, 0), Triangle(1, 0, 2), Triangle(0, 1, 2), Triangle(1, 2, 3)}, cnt);
+			for (int del = 0; del < 2; del++) {
+				case_applymap<int, int>(t.v, t.json, map, "[2,1,0,-1]", del != 0);
+				case_applymap<int, uint32_t>(t.v, t.json, map, "[2,1,0,-1]", del != 0);
+			}
+		}
 		// a map that covers the whole 16-bit index range
 		{
 			std::vector<int> big(65536);
